@@ -26,6 +26,7 @@ CONSTANTS MaxLen,      \* calls per behaviour
           MaxArr,      \* backing arrays per behaviour
           MaxCap,      \* capacity of make
           Full,        \* TRUE: whole alphabet; FALSE: slices and pointers only (exhaustive runs)
+          Directed,    \* TRUE: the walk is steered through the pattern watched by the monitor (ph) first
           Quiet
 
 NS == 1..3
@@ -33,9 +34,14 @@ NP == 1..2
 NT == 1..2
 Keys == {"x", "y"}
 
-VARIABLES arr, narr, S, P, T, TP, M, I, cell, clo, next, fin, hist
-vars == <<arr, narr, S, P, T, TP, M, I, cell, clo, next, fin, hist>>
-view == <<arr, narr, S, P, T, TP, M, I, cell, clo, next, fin, Len(hist)>>
+VARIABLES arr, narr, S, P, T, TP, M, I, cell, clo, next, fin, hist,
+          ph, ma, mt   \* monitor of the pattern "a NEW object refers to an ALREADY SHARED object, the older
+                       \* references are dropped in later calls, the object is read through the new holder":
+                       \*   ph = 1: backing array ma is viewed by two slice variables (shared => escaped once persisted)
+                       \*   ph = 2: a later call stored a new Box in T[mt] whose View is a view of ma
+                       \*   ph = 3: later calls made every other reference to ma go away; T[mt].View still shows it
+vars == <<arr, narr, S, P, T, TP, M, I, cell, clo, next, fin, hist, ph, ma, mt>>
+view == <<arr, narr, S, P, T, TP, M, I, cell, clo, next, fin, Len(hist), ph, ma, mt>>
 
 NilS == [a |-> 0, off |-> 0, len |-> 0, cap |-> 0]
 NilP == [k |-> "nil", a |-> 0, i |-> 0]
@@ -69,13 +75,14 @@ Proj == [s |-> [i \in NS |-> PS(arr', S'[i])],
 
 Log(op, a1, a2, a3, a4) ==
   hist' = IF Quiet THEN Append(hist, 0)
-          ELSE Append(hist, [act |-> op, a |-> a1, b |-> a2, c |-> a3, d |-> a4, st |-> Proj])
+          ELSE Append(hist, [act |-> op, a |-> a1, b |-> a2, c |-> a3, d |-> a4, ph |-> ph, st |-> Proj])
 
 Init ==
   /\ arr = [a \in 1..MaxArr |-> <<>>] /\ narr = 0
   /\ S = [i \in NS |-> NilS] /\ P = [i \in NP |-> NilP] /\ T = [i \in NT |-> NilT] /\ TP = 0
   /\ M = [k \in Keys |-> [has |-> FALSE, s |-> NilS]] /\ I = NilI
   /\ cell = [c \in 1..2 |-> 0] /\ clo = 0 /\ next = 1 /\ fin = FALSE /\ hist = <<>>
+  /\ ph = 0 /\ ma = 0 /\ mt = 0
 
 Room == narr < MaxArr
 Fresh == next' = next + 1
@@ -86,7 +93,7 @@ Same(vs) == UNCHANGED vs
 \*  uniformly chosen successor is not nearly always a make or a reslice)
 MakeSlice ==
   /\ Room
-  /\ Full => Cardinality({x \in NS : S[x].a # 0}) < 2
+  /\ (Full /\ ~(Directed /\ ph = 2)) => Cardinality({x \in NS : S[x].a # 0}) < 2
   /\ \E s \in NS, c \in 1..MaxCap, n \in 0..MaxCap :
        /\ n <= c
        /\ Full => (c >= 2 /\ n >= c - 1)
@@ -254,7 +261,7 @@ CPtr ==
 
 \* the behaviour is complete (a step with exactly one successor, so that simulation prints it once)
 Done == Len(hist) = MaxLen /\ ~fin /\ fin' = TRUE
-        /\ UNCHANGED <<arr, narr, S, P, T, TP, M, I, cell, clo, next, hist>>
+        /\ UNCHANGED <<arr, narr, S, P, T, TP, M, I, cell, clo, next, hist, ph, ma, mt>>
 
 Step ==
   \/ MakeSlice \/ Reslice \/ AppendS \/ SetElem \/ PtrElem \/ PtrWrite
@@ -262,8 +269,39 @@ Step ==
   \/ MSet \/ MAppend \/ MElem \/ MDel
   \/ IBoxS \/ IBoxP \/ IBoxT \/ IAppend \/ IWrite
   \/ CMake \/ CInc \/ CPtr
+\* ---- the monitor (a function of the step; it constrains nothing unless Directed)
+SViews(SS, x) == {v \in NS : SS[v].a = x}
+\* references to array x other than the view of T[t]
+OtherRefs(x, t) ==
+  (\E v \in NS : S'[v].a = x) \/ (\E p \in NP : P'[p].k = "elem" /\ P'[p].a = x)
+  \/ (\E u \in NT : u # t /\ T'[u].view.a = x) \/ (\E u \in NT : T'[u].ref.k = "elem" /\ T'[u].ref.a = x)
+  \/ (\E k \in Keys : M'[k].has /\ M'[k].s.a = x) \/ I'.s.a = x \/ I'.b.view.a = x
+  \/ (I'.p.k = "elem" /\ I'.p.a = x) \/ (I'.b.ref.k = "elem" /\ I'.b.ref.a = x)
+Mon ==
+  IF ph = 0 THEN
+       LET X == {x \in 1..narr' : Cardinality(SViews(S', x)) >= 2}
+       IN IF X # {} THEN ph' = 1 /\ ma' = (CHOOSE x \in X : TRUE) /\ mt' = 0 ELSE UNCHANGED <<ph, ma, mt>>
+  ELSE IF ph = 1 THEN
+       IF Cardinality(SViews(S', ma)) < 2 THEN ph' = 0 /\ ma' = 0 /\ mt' = 0
+       ELSE IF \E t \in NT : T'[t] # T[t] /\ T'[t].view.a = ma
+            THEN ph' = 2 /\ ma' = ma /\ mt' = (CHOOSE t \in NT : T'[t] # T[t] /\ T'[t].view.a = ma)
+            ELSE UNCHANGED <<ph, ma, mt>>
+  ELSE IF ph = 2 THEN
+       IF T'[mt].view.a # ma THEN ph' = 0 /\ ma' = 0 /\ mt' = 0
+       ELSE IF ~OtherRefs(ma, mt) THEN ph' = 3 /\ UNCHANGED <<ma, mt>>
+       ELSE UNCHANGED <<ph, ma, mt>>
+  ELSE UNCHANGED <<ph, ma, mt>>
+
+\* Directed walks: slice calls only until an array is shared, then the new Box over it, then the
+\* slice variables that still view it are re-made; afterwards the walk is free.
+Steer ==
+  IF ~Directed \/ ph = 3 THEN Step
+  ELSE IF ph = 0 THEN MakeSlice \/ Reslice \/ AppendS \/ SetElem
+  ELSE IF ph = 1 THEN TSet /\ \E t \in NT : T'[t] # T[t] /\ T'[t].view.a = ma
+  ELSE MakeSlice /\ \E v \in SViews(S, ma) : S'[v] # S[v]
+
 \* nothing but make() is useful before the first backing array exists
-Next == Done \/ (Len(hist) < MaxLen /\ UNCHANGED fin /\ (IF narr = 0 THEN MakeSlice ELSE Step))
+Next == Done \/ (Len(hist) < MaxLen /\ UNCHANGED fin /\ (IF narr = 0 THEN MakeSlice ELSE Steer) /\ Mon)
 Spec == Init /\ [][Next]_vars
 
 \* every view and pointer stays inside an allocated array
@@ -277,6 +315,7 @@ WellFormed ==
   /\ InRange(I.s) /\ PtrOK(I.p) /\ InRange(I.b.view)
 
 Emit == PrintT(<<"TRACE", ToJson(hist)>>)
-EmitAtEnd == ~fin \/ Emit
+\* a directed walk is printed only when it went through the whole pattern
+EmitAtEnd == ~fin \/ (Directed /\ ph # 3) \/ Emit
 EmitEdge == hist' = hist \/ PrintT(<<"EDGE", ToJson(hist')>>)
 =============================================================================
